@@ -682,9 +682,10 @@ Outcome run_c10(const Case &c) {
     else if (cmd == "wait") { long cb = W.calls_total; if (m.closed) { pboolean r = p_socket_io_condition_wait(m.s, P_SOCKET_IO_CONDITION_POLLOUT, &err); expect_not_available(i, "io_condition_wait", !r, err, cb); } }
     else if (cmd == "sendto") { long cb = W.calls_total; if (m.closed) { PSocketAddress *ad = p_socket_address_new("127.0.0.1", 9); pssize r = p_socket_send_to(m.s, ad, "x", 1, &err); p_socket_address_free(ad); expect_not_available(i, "send_to", r < 0, err, cb); } }
     else if (cmd == "recvfrom") { long cb = W.calls_total; if (m.closed) { char b[8]; pssize r = p_socket_receive_from(m.s, NULL, b, sizeof b, &err); expect_not_available(i, "receive_from", r < 0, err, cb); } }
-    else if (cmd == "blocking") { p_socket_set_blocking(m.s, arg % 2 ? TRUE : FALSE); m.blocking = arg % 2; }
+    // pboolean is an int: "true" arrives as 1 or as any other non-zero value (flags & MASK style), which the library normalises
+    else if (cmd == "blocking") { p_socket_set_blocking(m.s, arg % 2 ? (arg % 4 == 3 ? (pboolean)(2 << (arg % 3)) : TRUE) : FALSE); m.blocking = arg % 2; }
     else if (cmd == "timeout") { static const int ts[] = {-5, 0, 1, 20, 50, 3}; int t = ts[arg % 6]; p_socket_set_timeout(m.s, t); m.timeout = t < 0 ? 0 : t; }
-    else if (cmd == "keepalive") { if (!m.closed) { p_socket_set_keepalive(m.s, arg % 2 ? TRUE : FALSE); m.keepalive = arg % 2; } }
+    else if (cmd == "keepalive") { if (!m.closed) { p_socket_set_keepalive(m.s, arg % 2 ? (arg % 4 == 3 ? (pboolean)(2 << (arg % 3)) : TRUE) : FALSE); m.keepalive = arg % 2; } }
     else if (cmd == "backlog") { int b = 1 + (int)(arg % 9); p_socket_set_listen_backlog(m.s, b); if (!m.listening) m.backlog = b; }
     else if (cmd == "free") { p_socket_free(m.s); for (int f : m.raw_peers) close(f); m = MSock(); }
     if (err) p_error_free(err);
